@@ -272,6 +272,7 @@ func runC04(c *report.Ctx) {
 	ruleLayout(c, []string{"pubkey-record-key"}, 2)
 	ruleChildNumberRoles(c)
 	ruleWipedCacheDropped(c)
+	ruleNextIndexFromTx(c)
 }
 
 func kindOnly(os []string) string {
